@@ -154,6 +154,9 @@ impl<T: Actor> ActorRef<T> {
         #[cfg(feature = "tracing")]
         debug!("Sending tell message (fire-and-forget)");
 
+        #[cfg(rsactor_verif)]
+        crate::verif::failpoint("tell:before_send");
+
         let result = if self.sender.send(envelope).await.is_err() {
             crate::dead_letter::record::<M>(
                 self.identity(),
@@ -286,6 +289,9 @@ impl<T: Actor> ActorRef<T> {
 
         #[cfg(feature = "tracing")]
         debug!("Sending ask message and waiting for reply");
+
+        #[cfg(rsactor_verif)]
+        crate::verif::failpoint("ask:before_send");
 
         if self.sender.send(envelope).await.is_err() {
             crate::dead_letter::record::<M>(
@@ -1077,6 +1083,8 @@ impl<T: Actor> ActorWeak<T> {
     pub fn upgrade(&self) -> Option<ActorRef<T>> {
         // Try to upgrade both the mailbox sender and terminate sender
         let sender = self.sender.upgrade()?;
+        #[cfg(rsactor_verif)]
+        crate::verif::failpoint("upgrade:between");
         let terminate_sender = self.terminate_sender.upgrade()?;
 
         Some(ActorRef {
